@@ -28,6 +28,8 @@ try:
         rundir = os.path.join(wt, 'internal/cmd/tlgen')
         m2 = re.search(r'\./(gen|tlparser)', cmd)
         sub = 'internal/cmd/tlgen/' + (m2.group(1) if m2 else 'gen')
+    if re.search(r'\s\.$', cmd) and sub and rundir == wt and sub != 'telegram/deeplinks':
+        rundir = os.path.join(wt, sub)  # 'go test ... .' meant to be run inside the package directory
     tree = 'cp -r demo/.' in readme
     if tree:
         sub, rundir = '', wt
